@@ -15,7 +15,7 @@ from . import common
 
 ID = "C01"
 RUNS = {"quick": 9000, "thorough": 600000}
-TIME = {"quick": 75, "thorough": 1500}
+TIME = {"quick": 150, "thorough": 1500}
 RULE_TEXT = (
     "case = seeded (profile, one of 19 rule classes, m, quota, simultaneous, transfer, tiebreak) executed under 4 schedules of the "
     "random seam (asc, desc, keyed, seeded) with a round budget of 2|C|+6; tiebreak=None cases that raise ValueError are re-run as a "
@@ -34,8 +34,29 @@ SINGLE_ROUND = ("Plurality", "SNTV", "Borda") + G.SCORE_RULES
 HAS_TIEBREAK = G.STV_FAMILY + ("Plurality", "SNTV", "Borda", "TopTwo", "Alaska") + G.SCORE_RULES
 
 
+def generate_big_pairwise(rng, run_seed):
+    """8 candidates and a bullet vote (7 candidates left unranked, 5040 completions) whose weight decides a head-to-head contest:
+    the only place where the pairwise rules leave the small-profile regime.  One schedule only (each election costs seconds)."""
+    names = list(G.NAME_FAMILIES["plain"][:8])
+    a, b = rng.sample(names, 2)
+    rest = [c for c in names if c not in (a, b)]
+    rng.shuffle(rest)
+    w = rng.randint(3, 9)
+    ballots = [{"r": [[b], [a]] + [[c] for c in rest], "w": str(w)}, {"r": [[a]], "w": str(w + rng.randint(1, 3))}]
+    if rng.random() < 0.5:
+        ballots.append({"r": [[a], [b]] + [[c] for c in rest[:3]], "w": str(rng.randint(1, 2))})
+    rng.shuffle(ballots)
+    rule = rng.choice(["DominatingSets", "CondoBorda"])
+    kw = {} if rule == "DominatingSets" else {"m": rng.randint(1, 3)}
+    rng.shuffle(names)
+    return {"rule": rule, "kw": kw, "profile": {"candidates": names, "ballots": ballots}, "shape": {"n": 8, "nb": len(ballots), "law": "big-pairwise", "names": "plain"},
+            "policies": common.gen_policies(rng, run_seed)[:1]}
+
+
 def generate(run_seed, tier):
     rng = stream(run_seed, "gen")
+    if rng.random() < 0.0015:
+        return generate_big_pairwise(rng, run_seed)
     case = G.gen_rule_case(rng, max_c=6 if rng.random() < 0.9 else 7, pairwise_ties=True)
     case["policies"] = common.gen_policies(rng, run_seed)
     return case
